@@ -83,7 +83,7 @@ def run_case(spec, ctx):
         out.update(status="skipped", reason="base text cannot be generated (C01)")
         return out
     if spec["klass"] == "progress":
-        bound = max(20.0, 200 * base_time)
+        bound = max(20.0, 40 * base_time)
         for tx in textmut.HANG_TEXTS[: 1 if spec.get("tier") == "quick" else 3]:
             allp = list(textmut.comment_edits(lines, rng, [tx]))
             pick = [e for e in allp if e[0] == "trailing_assignment"][:1] + [e for e in allp if e[0] in ("header", "between_blocks", "trailing_declaration_block", "end_of_file")][spec["i"] % 4 :: 4][:1]
@@ -188,7 +188,7 @@ def summarise(records, tier, seed):
         "rule": "2-3 component models; one edit per evaluation: a comment (34 hostile strings) inserted at header / between blocks / after an expressions header / inside a named block / trailing an assignment / "
         "trailing a declaration block / end of file; CRLF, tabs, indentation, trailing blanks, blank lines, no final newline, continuation inside parentheses, one-line declarations; unit and description "
         "annotations changed, added, removed; evaluation = one edited text loaded and fingerprinted (component membership, slot layout, generated bytes); plus bounded-progress runs in isolated interpreters "
-        "for 9**9**9-type comments (bound max(20 s, 200 x base time), timeout re-run once); non-trivial = >= 3 edits; distinct by (structural hash, edit class)",
+        "for 9**9**9-type comments (bound max(20 s, 40 x in-process base time), timeout re-run once); non-trivial = >= 3 edits; distinct by (structural hash, edit class)",
         "samples": C.pick_samples(records),
         "per_class_cases": ag["classes"],
         "status": ag["status"],
@@ -198,4 +198,4 @@ def summarise(records, tier, seed):
     verdict = {}
     if len(ag["hashes"]) < (20 if tier == "quick" else 200):
         verdict["inconclusive"] = f"only {len(ag['hashes'])} non-trivial cases"
-    return cov, ["'never hangs' is checked as bounded progress: load + generate within max(20 s, 200 x the unedited time) in an isolated interpreter"], verdict
+    return cov, ["'never hangs' is checked as bounded progress: load + generate within max(20 s, 40 x the unedited in-process load+generate time) in an isolated interpreter"], verdict
